@@ -119,10 +119,11 @@ def ids_in(n: T.Any) -> T.Set[str]:
 
 
 class Stmt:
-    __slots__ = ('kind', 'line', 'end_line', 'node', 'var', 'call', 'file')
+    __slots__ = ('kind', 'line', 'end_line', 'node', 'var', 'call', 'file', 'conditional')
 
-    def __init__(self, node: R.Node, file: str) -> None:
+    def __init__(self, node: R.Node, file: str, conditional: bool = False) -> None:
         self.node = node
+        self.conditional = conditional      # inside an if / foreach block
         self.kind = node.kind
         self.line = node.line
         self.end_line = node.end_line
@@ -143,18 +144,18 @@ class Stmt:
 def simple_statements(tree: R.Node, file: str) -> T.List[Stmt]:
     out: T.List[Stmt] = []
 
-    def rec(blk: R.Node) -> None:
+    def rec(blk: R.Node, cond: bool) -> None:
         for st in blk.a[0]:
             if st.kind == 'if':
                 for _c, b in st.a[0]:
-                    rec(b)
+                    rec(b, True)
                 if st.a[1] is not None:
-                    rec(st.a[1])
+                    rec(st.a[1], True)
             elif st.kind == 'foreach':
-                rec(st.a[2])
+                rec(st.a[2], True)
             else:
-                out.append(Stmt(st, file))
-    rec(tree)
+                out.append(Stmt(st, file, cond))
+    rec(tree, False)
     return out
 
 
@@ -194,9 +195,13 @@ class CallRec:
 
 
 class ProjEval(R.Evaluator):
-    def __init__(self, files: T.Mapping[str, str]) -> None:
+    """config: values of get_option(<name>) -- one *configuration* of the project.  A project that branches on
+    get_option() is judged once per configuration (the rewriter has to be right in every one of them)."""
+
+    def __init__(self, files: T.Mapping[str, str], config: T.Optional[T.Mapping[str, T.Any]] = None) -> None:
         super().__init__(files)
         self.calls: T.List[CallRec] = []
+        self.config = dict(config or {})
 
     def _lenient(self, x: R.Node) -> T.Any:
         try:
@@ -218,6 +223,8 @@ class ProjEval(R.Evaluator):
                     raise R.RefRuntimeError('files() takes strings')
                 out.append(RFile(os.path.normpath(os.path.join(self.scope.subdir, s))))
             return out
+        if name == 'get_option' and len(posn) == 1 and not kwn and posn[0].kind == 'str' and posn[0].a[0] in self.config:
+            return self.config[posn[0].a[0]]
         if name in ADDRESSED_FUNCS or not known:
             self.cover['func:' + name] += 1
             rec = CallRec()
@@ -238,7 +245,8 @@ class ProjEval(R.Evaluator):
 
 
 class Model:
-    def __init__(self, files: T.Mapping[str, str]) -> None:
+    def __init__(self, files: T.Mapping[str, str], config: T.Optional[T.Mapping[str, T.Any]] = None) -> None:
+        self.config = dict(config or {})
         self.files = {k: v for k, v in files.items() if k.endswith('meson.build')}
         self.trees: T.Dict[str, R.Node] = {}
         self.stmts: T.Dict[str, T.List[Stmt]] = {}
@@ -255,7 +263,7 @@ class Model:
                 continue
             self.stmts[f] = simple_statements(self.trees[f], f)
         if self.parse_error is None:
-            ev = ProjEval(self.files)
+            ev = ProjEval(self.files, self.config)
             out = ev.run()
             self.error = out.error
             self.calls = ev.calls
